@@ -90,8 +90,8 @@ Definition rewriters_before_wrapper (l : list stage) : bool :=
 
 (* ---- expected inventories: the sites this model accounts for ---- *)
 Definition expected_set_content : list string := [
+  "core/src/rules/comment_contents.rs:comment_is_separator";   (* = format_line_comment: the translator names the last nested fn *)
   "core/src/rules/comment_contents.rs:format_compiler_directive";
-  "core/src/rules/comment_contents.rs:trim_blank_end";
   "core/src/rules/lowercase_keywords.rs:format";
   "core/src/rules/optimising_line_formatter/multiline_strings.rs:format_multiline_strings" ]%string.
 
